@@ -8,7 +8,7 @@ ENV = "GOFLAGS=-mod=mod GOPROXY=off GOSUMDB=off GOTOOLCHAIN=local GOWORK=off"
 
 # id -> (technique, level text, level note, design ref)
 CLAIMED = {
-    "C12": ("lockset + guard-dominance + must-pass-through + def-use over go/ssa (custom checker) + baton-passing after cond.Wait + clamp bound followed into helpers (every return bounded by the limit parameter) + reachability of the running-set insertion under an assumed job state (caller/callee agreement on re-attach) + unit conversion before rounding (no float->int conversion multiplied by a constant afterwards)",
+    "C12": ("lockset + guard-dominance + must-pass-through + def-use over go/ssa (custom checker) + baton-passing after cond.Wait + clamp bound followed into helpers (every return bounded by the limit parameter) + reachability of the running-set insertion under an assumed job state (caller/callee agreement on re-attach) + unit conversion before rounding (no float->int conversion multiplied by a constant afterwards) + backward slice of the usage measurement feeding the semaphore (own process excluded)",
             "Structural necessary conditions decided exhaustively over the current source: lock discipline of the semaphore fields, "
             "capacity test dominates every grant in the same critical section, acquire/release pairing on all paths, clamp before acquire, "
             "wake-up after every release/resize, FIFO head-of-line, single acquisition order. All interleavings are covered at once because the rules "
@@ -23,7 +23,7 @@ CLAIMED.update({
             "phase guards in stepStage, the all-chunks-complete flag, the waiting rule of Node.getState, dependency sources (inputs, disabled condition, return bindings, fork roots) flowing into the prenode/postnode sets, preflight prenodes incl. recursion into sub-pipelines.",
             "Not decided: that FindRefs returns every reference (value-level recursion), state derivation from real files, job manager internals. Trusts go/ssa and the VTA call graph.",
             "DESIGN.md §4 C02"),
-    "C03": ("guard dominance + must-pass-through + who-may-call over go/ssa; disjunctive at-most-once rule + may-alias fix-point over package syntax (shared Disable list never extended in place) + copy-on-write discipline of shared fork-id parts (pointer provenance: caller's part joined with a private copy, guard compares len(node.forks) with Fork.index, followed into helpers) + must-pass-through (zero-length ranges examined before any enabled verdict of Fork.disabled) + sibling agreement of the chunk-directory width at every creator of chunk objects",
+    "C03": ("guard dominance + must-pass-through + who-may-call over go/ssa; disjunctive at-most-once rule + may-alias fix-point over package syntax (shared Disable list never extended in place) + copy-on-write discipline of shared fork-id parts (pointer provenance: caller's part joined with a private copy, guard compares len(node.forks) with Fork.index, followed into helpers) + must-pass-through (zero-length ranges examined before any enabled verdict of Fork.disabled) + sibling agreement of the chunk-directory width at every creator of chunk objects + no store through a shared fork-id part parameter in the static enumeration",
             "Structural necessary conditions: at-most-once submission (flag test-and-set OR synchronous _jobinfo record before execJob), disabled test before any submission/completion, "
             "empty/null mapped collections reach writeDisable, zero-length range reports disabled, skip() only for preflights under SkipPreflight.",
             "Not decided: one fork per element/key (run-time counts), liveness (no job skipped). The at-most-once rule is a disjunction on purpose: removing one of the two redundant mechanisms keeps behaviour and must not alarm.",
@@ -36,12 +36,12 @@ CLAIMED.update({
 })
 
 CLAIMED.update({
-    "C15": ("relation operand symmetry + field coverage (taint classes over go/ssa) + guard dominance on reattachToPipestance and Pipestance.Lock + all-elements-compared search + handler registration only for the lock owner + type name compared unless plain file (guard dominance on the accepting return) + reachability of struct-definition reads from EquivalentCall (interface calls expanded) + error-edge return values (no pipestance handed back when Lock failed) + guard dominance on every removal of the lock file (holder only) + who-may-rescan the pipestance-level metadata cache",
+    "C15": ("relation operand symmetry + field coverage (taint classes over go/ssa) + guard dominance on reattachToPipestance and Pipestance.Lock + all-elements-compared search + handler registration only for the lock owner + type name compared unless plain file (guard dominance on the accepting return) + reachability of struct-definition reads from EquivalentCall (interface calls expanded) + error-edge return values (no pipestance handed back when Lock failed) + guard dominance on every removal of the lock file (holder only) + who-may-rescan the pipestance-level metadata cache + writer/reader agreement on environment expansion of the invocation",
             "Structural necessary conditions: every comparison / nested relation call in the equivalence relations pairs a receiver-derived value with the same component of the argument (found the genuine self-comparison in Modifiers.EquivalentTo, now fixed); "
             "each semantic field is read on both sides; attachment is dominated by byte equality with the recorded file and by EquivalentCall; refusals unlock; the lock is written only when absent, after the handler is registered; mutating entry points are guarded by readOnly().",
             "Not decided: completeness (cosmetic edits are accepted), races between two simultaneous first starts, that the byte comparison of the invocation text refuses a merely reformatted invocation (observation only).",
             "DESIGN.md §4 C15"),
-    "C18": ("table agreement (escape set extracted from SSA comparisons vs POSIX special set) + provenance with sanitizer + template scan + guard exclusion sets for verbatim copies + single-pass substitution (value derivation) through helper parameters and results + byte-wise predicate helpers folded per byte value + no search of substituted text with placeholder needles (derivation through Split/Join/elements) + escape set equal to (not only covering) what a POSIX shell un-escapes inside double quotes",
+    "C18": ("table agreement (escape set extracted from SSA comparisons vs POSIX special set) + provenance with sanitizer + template scan + guard exclusion sets for verbatim copies + single-pass substitution (value derivation) through helper parameters and results + byte-wise predicate helpers folded per byte value + no search of substituted text with placeholder needles (derivation through Split/Join/elements) + escape set equal to (not only covering) what a POSIX shell un-escapes inside double quotes + the assembled script reaches file and stdin unmodified (direct value flow)",
             "Structural necessary conditions: the escape set of appendShellSafeQuote covers $ ` \" \\ (found the genuine missing back-tick, now fixed), values are wrapped in double quotes, every argv element / command / environment value reaches the script only through the quoting function, "
             "STDOUT/STDERR/JOB_WORKDIR/CMD parameters are quoted results, __MRO_CMD__ stands unquoted in command position in all templates.",
             "Not decided: invalid UTF-8 (octal extension), JOB_NAME/RESOURCES, directive parsers of each cluster. Oracle: POSIX XCU 2.2.3.",
@@ -61,7 +61,7 @@ CLAIMED.update({
 })
 
 CLAIMED.update({
-    "C05": ("must-pass-through ordering + guard dominance + who-may-call + interface-implementation enumeration over go/ssa (core, util, cmd/mrjob, cmd/mrp) + must-do (state re-derived after reset) + condition-implies-action (after an edge on which the restart condition holds every path to the entry point's return resets; verdict-returning helpers followed with the returned constants assumed) + condition-implies-action search with known facts (dominator-chain relations, loads of one access path) and with an assumed state value (contradicting edges pruned) + data dependence of the regenerated uniquifier on the previous one + loop-phase order (states derived only after every node loaded its metadata) + write-then-rename of the metadata archive + full reset renews the uniquifiers + sibling agreement of the chunk-directory width between first run and re-attach + condition-implies-action for orphaned Running nodes at re-attach",
+    "C05": ("must-pass-through ordering + guard dominance + who-may-call + interface-implementation enumeration over go/ssa (core, util, cmd/mrjob, cmd/mrp) + must-do (state re-derived after reset) + condition-implies-action (after an edge on which the restart condition holds every path to the entry point's return resets; verdict-returning helpers followed with the returned constants assumed) + condition-implies-action search with known facts (dominator-chain relations, loads of one access path) and with an assumed state value (contradicting edges pruned) + data dependence of the regenerated uniquifier on the previous one + loop-phase order (states derived only after every node loaded its metadata) + write-then-rename of the metadata archive + full reset renews the uniquifiers + sibling agreement of the chunk-directory width between first run and re-attach + condition-implies-action for orphaned Running nodes at re-attach + write-then-rename of extracted metadata files + ordering comparison in the uniquifier generator",
             "Crash-point enumeration is not static; decided instead are the ordering and ownership rules that make a crash at any point recoverable: durable-before-announced in the job monitor and in runJob, reset only of failed/orphaned work (never Complete), fresh uniquifier per attempt and stale notifications ignored, "
             "lock life-cycle and signal shutdown order, balanced critical sections that no HandleSignal enters and that enclose the multi-file updates.",
             "Not decided: equality of final outputs with an uninterrupted run, behaviour at each individual crash prefix, PID reuse. A lock leak on a non-signal error path of instantiatePipeline is outside the property's wording (handled signals) and reported as information in DESIGN.md.",
@@ -69,7 +69,7 @@ CLAIMED.update({
 })
 
 CLAIMED.update({
-    "C08": ("who-may-call + must-pass-through (deferred recover barrier) + guard dominance over go/ssa + include-graph acyclicity (guarded edge insertion) + may-be-nil propagation of the top-level call's nil *Pipeline",
+    "C08": ("who-may-call + must-pass-through (deferred recover barrier) + guard dominance over go/ssa + include-graph acyclicity (guarded edge insertion) + may-be-nil propagation of the top-level call's nil *Pipeline + no per-node allocation sized by the remaining input + freshly filtered error lists (no return of the receiver slice from ErrorList.If)",
             "Parse stage only. Structural necessary conditions: every caller of the generated parser installs a recover barrier that turns any panic of lexer, grammar action or literal conversion into a located parse failure (found four crashing inputs, fixed by adding the barrier); "
             "lexer progress (non-empty tokens, cursor advances every iteration); bounded include recursion.",
             "Not decided: panics in the compile phase (counted as information), time/memory proportionality (RE2 linearity assumed), errors without position.",
@@ -84,7 +84,7 @@ CLAIMED.update({
 })
 
 CLAIMED.update({
-    "C10": ("iteration-order analysis of every range-over-map loop reachable from the deterministic entry points (SSA loop bodies, effect classification, collect-then-sort recognition, call-effect fix-point over the VTA call graph) + self-validating triage table + positive examples + sibling agreement of key-order comparators + completeness of location comparisons in comparators of map-collected keys (closures and Less methods, accessors looked through) + comparator-indexes-the-sorted-slice (captured cells and receiver field paths resolved)",
+    "C10": ("iteration-order analysis of every range-over-map loop reachable from the deterministic entry points (SSA loop bodies, effect classification, collect-then-sort recognition, call-effect fix-point over the VTA call graph) + self-validating triage table + positive examples + sibling agreement of key-order comparators + completeness of location comparisons in comparators of map-collected keys (closures and Less methods, accessors looked through) + scope extended to the text rendering of `mro graph` + comparator-indexes-the-sorted-slice (captured cells and receiver field paths resolved)",
             "A structural necessary condition: Go's randomised map iteration is the only nondeterminism source in compile/format/resolve code (checked: no goroutine/clock/random there), so every map loop must have only order-insensitive effects, be collect-then-sort, or be triaged with a reason that the checker re-validates. "
             "Found 34 loops where map order reached error text, comment output or filtered JSON (18 distinct error texts in 60 compiles); fixed by sorted iteration.",
             "Not decided: order dependence through pointer identity, sort comparators that are not total orders, stability of topoSort. The 15 triage entries are the trusted part (each with a reason; 7 carry a machine-checked condition).",
@@ -92,14 +92,14 @@ CLAIMED.update({
 })
 
 CLAIMED.update({
-    "C11": ("table agreement between writer and parser constants (replacer pairs, regexp literal, Sprintf formats extracted from SSA; sample names assembled from the writer's constants are parsed by the reader's regexp) + provenance of map keys + guard dominance in the journal router + guard exclusion sets for verbatim key output (constant-needle searches; byte-wise predicates folded per byte value over the SSA of the loop body) + identity check of positional fork lookup (guard dominance on the returned element's own name) + adversarial name samples (call ids beginning with fork/chnk) + terminated name prefixes for removal by prefix",
+    "C11": ("table agreement between writer and parser constants (replacer pairs, regexp literal, Sprintf formats extracted from SSA; sample names assembled from the writer's constants are parsed by the reader's regexp) + provenance of map keys + guard dominance in the journal router + guard exclusion sets for verbatim key output (constant-needle searches; byte-wise predicates folded per byte value over the SSA of the loop body) + identity check of positional fork lookup (guard dominance on the returned element's own name) + adversarial name samples (call ids beginning with fork/chnk) + terminated name prefixes for removal by prefix + ordering comparison in the uniquifier generator",
             "Structural necessary conditions: the journal-name encoder and the journal regexp agree, the uniquifier/chunk formats are what the regexp accepts, map keys reach id text only through url.PathEscape, Fork.fqname/path/id come only from the encoded id, stale attempts are ignored, a notification is applied only to the object the router resolved, fork lookup is bounds-checked and compares whole names.",
             "Not decided: injectivity of nested mixed array/map fork numbering (arithmetic on run-time lengths), collisions between -u<uniq> directories, that forks[i] carries id fork<i>.",
             "DESIGN.md §4 C11"),
 })
 
 CLAIMED.update({
-    "C17": ("sibling agreement over all implementations of the Type interface (guard dominance) + operand symmetry (taint classes) + phi-flag analysis over go/ssa (partial claim) + guard exclusion sets for raw strings written into rebuilt JSON + all-elements product search (original returned only if no component changed) + type-level scan of decode destinations in validators/filters (no json.Number, no interface{}) + refusal backed by member-type assignability in StructType.IsAssignableFrom + every-iteration rule over StructType.Members in all IsAssignableFrom implementations + filtered result (not the input) returned after FilterJson at stage boundaries",
+    "C17": ("sibling agreement over all implementations of the Type interface (guard dominance) + operand symmetry (taint classes) + phi-flag analysis over go/ssa (partial claim) + guard exclusion sets for raw strings written into rebuilt JSON + all-elements product search (original returned only if no component changed) + type-level scan of decode destinations in validators/filters (no json.Number, no interface{}) + refusal backed by member-type assignability in StructType.IsAssignableFrom + every-iteration rule over StructType.Members in all IsAssignableFrom implementations + filtered result (not the input) returned after FilterJson at stage boundaries + array projection keeps remaining dimensions",
             "Structural necessary conditions: every IsValidJson / FilterJson implementation accepts null first and without effect; every IsAssignableFrom / CheckEqual pairs the same component of receiver and argument; JSON rebuilders keep the identity fast path and raise the 'different' flag whenever a component changed.",
             "Partial: idempotence, validity of the rebuilt JSON and int/float normalisation are value-level and not decided.",
             "DESIGN.md §4 C17"),
@@ -110,14 +110,14 @@ CLAIMED.update({
 })
 
 CLAIMED.update({
-    "C19": ("field-coverage (which syntax fields the refactoring code reads, per entry point over the call graph incl. Apply methods of created edits, and per enumerating function) + sibling agreement of the expression walkers' type switches (thin claim) + whole-name-match lint + inferred key domains of the callable tables + name-space separation + live-identity check on edits + complete enumeration (no sub-slice of / early exit from loops over binding lists in the rename walkers) + visiting of every called pipeline in the unused-output search + wildcard bindings considered by renames + no identity comparison of declaration objects across separately compiled files + every iteration over the ASTs examines the top-level call",
+    "C19": ("field-coverage (which syntax fields the refactoring code reads, per entry point over the call graph incl. Apply methods of created edits, and per enumerating function) + sibling agreement of the expression walkers' type switches (thin claim) + whole-name-match lint + inferred key domains of the callable tables + name-space separation + live-identity check on edits + complete enumeration (no sub-slice of / early exit from loops over binding lists in the rename walkers) + visiting of every called pipeline in the unused-output search + wildcard bindings considered by renames + no identity comparison of declaration objects across separately compiled files + every iteration over the ASTs examines the top-level call + loop-phase separation of candidate population and top-call removal",
             "Two mechanisms, not the behaviour: every place where a renamed or removed name can occur (call/modifier/return bindings, pipeline retains, top-level call) is visited by the refactoring that concerns it; every expression walker has an arm for each reference-bearing expression kind and recurses (or enumerates with FindRefs).",
             "Thin: that the edited program compiles, call-graph equality and rename round-trips are not decided.",
             "DESIGN.md §4 C19"),
 })
 
 CLAIMED.update({
-    "C16": ("type-level scan of JSON decode destinations on the conversion path + writer/reader key agreement (constants and struct tags) + guard dominance + value derivation over go/ssa (thin claim) + type-switch-arm dominance of dimension adjustments (in the function or at every call, constant boolean arguments respected) + sortedness typestate for binary searches (a sort of the same value dominates every search) + backward slice of the recorded include (independent of the include chain)",
+    "C16": ("type-level scan of JSON decode destinations on the conversion path + writer/reader key agreement (constants and struct tags) + guard dominance + value derivation over go/ssa (thin claim) + type-switch-arm dominance of dimension adjustments (in the function or at every call, constant boolean arguments respected) + sortedness typestate for binary searches (a sort of the same value dominates every search) + backward slice of the recorded include (independent of the include chain) + separator test dominating every path-tail return of IncludeFilePath",
             "Four structural necessary conditions: numbers are never decoded through interface{} or a float type on the conversion path (they stay text and are read by the MRO value parser, so large integers survive); "
             "the object key SplitExp.encodeJSON writes equals the JSON tag convertToExp reads; the split status of an argument is recorded on the *SplitExp edge and restored by wrapping under the split flag; "
             "the per-fork invocation is BuildCallSource of this fork's resolved inputs.",
@@ -126,7 +126,7 @@ CLAIMED.update({
 })
 
 CLAIMED.update({
-    "C13": ("write-site classification of the JSON buffer (constant / json.RawMessage by type / encoder result) with error-path exemption decided from the returns reachable after the write + must-pass-through (a value is written on every path that can return nil; every iteration of a separator-writing loop writes its element) + backward provenance of rename/symlink destinations + all-members rule on the duplicate out-name set of StructType.compile + leaf agreement between a link read and the directory its relative target is joined with + stat of the destination before a missing source is recorded as null + guard dominance of IsLegalUnixFilename over map keys joined into paths + every-iteration key collection (thin claim)",
+    "C13": ("write-site classification of the JSON buffer (constant / json.RawMessage by type / encoder result) with error-path exemption decided from the returns reachable after the write + must-pass-through (a value is written on every path that can return nil; every iteration of a separator-writing loop writes its element) + backward provenance of rename/symlink destinations + all-members rule on the duplicate out-name set of StructType.compile + leaf agreement between a link read and the directory its relative target is joined with + stat of the destination before a missing source is recorded as null + guard dominance of IsLegalUnixFilename over map keys joined into paths + every-iteration key collection + buffer-write provenance in the symlink arm (destination, not outs/ name) + element type keeps remaining dimensions + rewritten element (not the input) recorded after processStructOuts (thin claim)",
             "Five structural necessary conditions: everything written into the rebuilt top-level _outs is JSON by construction (keys and moved paths go through json.Marshal; raw strings only on paths that end in a non-nil error); "
             "every path through a writer that can succeed has written a value; no iteration of a separator-writing loop skips its element; files are moved/linked to the path built from the member's GetOutFilename(); "
             "the compiler's duplicate out-name rejection looks up and records every member with a non-empty out filename, and the struct synthesised from each callable's outputs goes through it.",
